@@ -5,6 +5,7 @@ import (
 	"math"
 	"strings"
 	"sync"
+	"sync/atomic"
 	"time"
 
 	. "vh/lib"
@@ -12,6 +13,7 @@ import (
 	"github.com/cnotch/ipchub/av/codec"
 	"github.com/cnotch/ipchub/av/format/amf"
 	"github.com/cnotch/ipchub/av/format/flv"
+	"github.com/cnotch/ipchub/utils/verifhook"
 	"github.com/cnotch/xlog"
 )
 
@@ -36,25 +38,30 @@ func (c *c08Core) Write(e xlog.Entry) error {
 	return nil
 }
 
-var c08Magic = []byte("\x00C08-END-OF-CASE-SENTINEL")
+// quiescence of the muxer goroutine: it passes the schedule point "worker.pop" (id 2) once at
+// start and once after every frame it has finished with, so after n frames the (n+1)-th pass
+// means everything pushed has been processed (whether written or dropped)
+var (
+	c08Pops   int64
+	c08Target int64
+	c08Idle   chan struct{}
+)
 
-// TagWriter between the muxer and the writer: forwards or collects, and recognises the sentinel
+func c08Point(name string, id uint32) {
+	if id == 2 && name == "worker.pop" {
+		if atomic.AddInt64(&c08Pops, 1) == atomic.LoadInt64(&c08Target) {
+			close(c08Idle)
+		}
+	}
+}
+
+// TagWriter between the muxer and the writer: forwards or collects
 type c08Sink struct {
 	direct *flv.Writer
 	tags   []*flv.Tag
-	done   chan struct{}
-	fin    bool
 }
 
 func (s *c08Sink) WriteFlvTag(tag *flv.Tag) error {
-	if s.fin {
-		return nil
-	}
-	if tag.TagType == flv.TagTypeVideo && bytes.HasSuffix(tag.Data, c08Magic) {
-		s.fin = true
-		close(s.done)
-		return nil
-	}
 	if s.direct != nil {
 		return s.direct.WriteFlvTag(tag)
 	}
@@ -91,8 +98,13 @@ func c08Run(c Val) Val {
 	vm, am := c08Metas(cfg)
 	var out bytes.Buffer
 	core := &c08Core{died: make(chan struct{})}
-	sink := &c08Sink{done: make(chan struct{})}
+	sink := &c08Sink{}
 	logger := xlog.New(core)
+	atomic.StoreInt64(&c08Pops, 0)
+	atomic.StoreInt64(&c08Target, int64(len(frames))+1)
+	c08Idle = make(chan struct{})
+	verifhook.SetPoint(c08Point)
+	defer verifhook.SetPoint(nil)
 
 	mux, err := flv.NewMuxer(vm, am, sink, logger)
 	if err != nil {
@@ -105,19 +117,17 @@ func c08Run(c Val) Val {
 	if mode == 0 {
 		sink.direct = w
 	}
-	if len(frames) > 0 {
-		for _, f := range frames {
-			mux.WriteFrame(&codec.Frame{MediaType: codec.MediaType(f.At(0).Int()), Dts: f.At(1).Int(),
-				Pts: f.At(2).Int(), Payload: f.At(3).Bytes()})
-		}
-		mux.WriteFrame(&codec.Frame{MediaType: codec.MediaTypeVideo, Payload: c08Magic})
-		select {
-		case <-sink.done:
-		case <-core.died:
-		case <-time.After(20 * time.Second):
-			return L(S("!hang"), S("muxer did not drain"))
-		}
+	for _, f := range frames {
+		mux.WriteFrame(&codec.Frame{MediaType: codec.MediaType(f.At(0).Int()), Dts: f.At(1).Int(),
+			Pts: f.At(2).Int(), Payload: f.At(3).Bytes()})
 	}
+	select {
+	case <-c08Idle:
+	case <-core.died:
+	case <-time.After(20 * time.Second):
+		return L(S("!hang"), S("muxer did not drain"))
+	}
+	verifhook.SetPoint(nil)
 	mux.Close()
 	if mode != 0 {
 		// what media.FlvCache.PushTo hands a joining consumer: cached configuration tags
